@@ -291,6 +291,7 @@ package task
 //@   site (*Executor).runDeps#0 requires lockfree()                                                    [C07,C18]
 //@   site (*Executor).runCommand#0 requires lockfree()                                                 [C07,C18]
 //@   site (*Executor).runDeferred#0 requires lockfree()                                                [C07,C18]
+//@   site (*Executor).runDeferred#0 requires arg1 == ctx       -- the context of the execution, whose chain the deferred call must see   [C07]
 // a failing command of a dependency makes the run of the task that was asked for a failed run (error class
 // 201, the command's own status with --exit-code), exactly like a failure of its own commands
 //@   init depsErr := nil
@@ -391,8 +392,14 @@ package task
 //@   blocks
 //@   requires semLimited() ==> tok == 1
 //@   ensures  tok == old(tok)                                                                          [C07]
-//@   site context.Background#1 ghost bgCtx := result
-//@   site context.WithCancel#0 requires arg0 == bgCtx                                                  [C14]
+// ... but it is made FROM the task's context (its values without its cancellation): the deferred command still runs
+// on behalf of the executions that context stands for, so a deferred call that leads back to one of them is refused
+// as a cycle instead of waiting for itself (a context made from nothing forgets them)
+//@   site context.WithoutCancel#0 requires arg0 == ctx                                                 [C07,C14]
+//@   site context.WithoutCancel#1 ghost bgCtx := result
+//@   site context.WithCancel#0 requires arg0 == bgCtx                                                  [C14,C07]
+//@   nosite context.Background                                                                         [C07]
+//@   nosite context.TODO                                                                               [C07]
 //@   site context.WithCancel#1 ghost ownCtx := result.0
 //@   site (*Executor).runCommand#0 requires arg1 == ownCtx && arg2 == t && arg3 == call && arg4 == i   [C14]
 // the text that is rendered (now, with EXIT_CODE) and then run is that of entry i of the COMPILED task - the list
